@@ -23,8 +23,12 @@ RULE = ('every placement of a fault kind {NaN, +inf, -inf, warning-raising state
 TRUSTED = ['scripted-model subclass harness/scripted.py (same script is the Coq oracle)',
            'parser-built models: the recording subclass of harness/props/C06.py turns the columns observed after each pass into the script']
 ASSUMPTIONS = ['_evaluate and the hooks modify only variable values (not status/iterations) — the shape of the model\'s oracles',
-               't lies inside the span and is feasible for the lags/leads; offset = 0 (offsets are C02)',
-               'which NumPy operations warn is an input (recorded from the run), not modelled']
+               't lies inside the span and is feasible for the lags/leads; an offset lies inside the span (the theorems are stated for offset = 0 and '
+               'compose with C02_offset_seeds; K and the oracle also run in-span offsets, incl. a non-finite value at the offset source)',
+               'which NumPy operations warn is an input (recorded from the run), not modelled; for parser-built models the oracle REQUIRES the '
+               'warning path whenever a pass turns a wholly finite store non-finite under errors=raise with catch_first_error',
+               'K is stricter than the oracle (it also compares: warnings of other categories than RuntimeWarning, an invalid `errors` value, that '
+               'nothing is recorded when a hook fails, the exact class of the chained cause, the whole values store)']
 EXHAUSTIVE = {'quick': False, 'thorough': False}
 CASE_TIMEOUT = 30
 KNOWN_SIG = 'C06|errors=replace|pass-after-nonfinite-pass-judged'
@@ -76,7 +80,7 @@ def impl_parsed(case):
     import scripted
     symbols = fsic.parse_model(case['equations'])
     Base = fsic.build_model(symbols)
-    rec = {'evlog': [], 'passvecs': [], 'raised': [], 'cols': [], 'pre': [], 'where': []}
+    rec = {'evlog': [], 'passvecs': [], 'raised': [], 'cols': [], 'pre': [], 'where': [], 'allfin': []}
 
     class Rec(Base):
         def _col(self, t):
@@ -89,6 +93,7 @@ def impl_parsed(case):
         def _evaluate(self, t, *, errors='raise', catch_first_error=True, iteration=None, **kwargs):
             rec['evlog'].append(['pass', int(t), int(iteration)])
             rec['pre'].append(self._col(t))
+            rec['allfin'].append(bool(all(np.all(np.isfinite(self.__dict__['_' + nm])) for nm in self.names)))
             try:
                 super()._evaluate(t, errors=errors, catch_first_error=catch_first_error, iteration=iteration, **kwargs)
             except Exception as e:
@@ -132,7 +137,7 @@ def impl_parsed(case):
         'status': [str(x) for x in m.__dict__['_status']], 'iters': [int(x) for x in m.__dict__['_iterations']],
         'log': rec['evlog'], 'passvecs': [[lib.fhex(x) for x in v] for v in rec['passvecs']], 'raised': rec['raised'], 'blocked': [],
         'pre': [[lib.fhex(x) for x in v] for v in rec['pre']], 'cols': [[lib.fhex(x) for x in v] for v in rec['cols']],
-        'as_scripted': as_scripted, 'names': names, 'where': rec['where'],
+        'as_scripted': as_scripted, 'names': names, 'where': rec['where'], 'allfin': rec['allfin'],
     }
 
 
@@ -167,8 +172,15 @@ def placed_case(rng, kind, eq, k, p, errors, failures, cf, mnmx=None, persist=No
         mnmx = rng.choice([(0, 5), (0, k), (k, k), (0, k + 1), (k + 1, k + 2), (2, 4), (0, max(k - 1, 0)), (1, 6), (k, 6)])
     mn, mx = mnmx
     t = p if rng.random() < 0.7 else p - n
-    c = sc.base_case(nvars=4, check=(0, 1, 2), endo=(0, 1, 2), n=n, t=t, min_iter=mn, max_iter=mx, failures=failures, errors=errors,
-                     catch_first_error=cf)
+    endo = (0, 1, 2, 3) if rng.random() < 0.3 else (0, 1, 2)          # V3: sometimes a NON-check endogenous variable
+    off = 0
+    if rng.random() < 0.15:
+        off = rng.choice([x for x in (-1, 1, -2, 2) if 0 <= p + x < n])  # an in-span offset: the period is seeded from period p + off
+    c = sc.base_case(nvars=4, check=(0, 1, 2), endo=endo, n=n, t=t, min_iter=mn, max_iter=mx, failures=failures, errors=errors,
+                     catch_first_error=cf, offset=off)
+    if off and rng.random() < 0.5:
+        # a non-finite value AT THE OFFSET SOURCE, in a check variable or in the non-check endogenous one
+        c['vals'][rng.choice(endo)][p + off] = lib.fhex(rng.choice(list(BADV.values())))
     if persist is None:
         persist = rng.random() < 0.25
     passes = []
@@ -176,6 +188,8 @@ def placed_case(rng, kind, eq, k, p, errors, failures, cf, mnmx=None, persist=No
         acts = [['set', j, lib.fhex(base[i][j])] for j in range(3)]
         if i + 1 == k or (persist and i + 1 > k):
             acts[eq] = fault_stmt(rng, kind, eq)
+        if rng.random() < 0.04:
+            acts.append(['set', 3, lib.fhex(rng.choice(list(BADV.values())))])     # a non-finite value in the NON-check variable V3
         passes.append(acts)
     ps = {'passes': passes}
     r = rng.random()
@@ -185,6 +199,7 @@ def placed_case(rng, kind, eq, k, p, errors, failures, cf, mnmx=None, persist=No
     elif r < 0.12:
         ps['after'] = [['raise', 13]] if rng.random() < 0.6 else [['warnset', 3, lib.fhex(1.0)]]
     c['scripts'] = {str(p): ps}
+    c['opts'] = sc.random_omit(rng, c['opts'], 0.12)          # some calls leave keywords (errors, catch_first_error, ...) to their defaults
     if rng.random() < 0.15:
         c['vals'][rng.randrange(3)][p] = lib.fhex(rng.choice(list(BADV.values())))
     if rng.random() < 0.1:
@@ -275,6 +290,15 @@ def gen(rng, tier):
                             for failures in ('raise', 'ignore'):
                                 for cf in (True, False):
                                     cases.append(placed_case(rng, kind, eq, k, p, errors, failures, cf))
+    # keyword defaults (errors='raise', catch_first_error=True, failures='raise', ...): every keyword omitted in turn and all of them
+    for omit in sc.default_probe_omissions():
+        for name in ('nan-at-2', 'warn-at-2', 'oscillating'):
+            c = sc.base_case(nvars=2, check=(0,), endo=(0,), n=3, t=1, min_iter=0, max_iter=rng.choice([4, 6]), failures=rng.choice(['raise', 'ignore']),
+                             errors=rng.choice(['raise', 'skip', 'ignore']), catch_first_error=rng.random() < 0.5)
+            c['opts'] = sc.with_omitted(c['opts'], omit)
+            c['vals'][0][1] = lib.fhex(1.0)
+            c['scripts'] = {'1': sc.default_probe_scripts(1)[name]}
+            cases.append(c)
     # random multi-fault scripts
     for _ in range(600 if tier == 'quick' else 12000):
         c = placed_case(rng, rng.choice(KINDS), rng.randrange(3), rng.randint(1, 5), rng.randrange(3), rng.choice(ERR5),
@@ -331,6 +355,18 @@ def _fin(vec):
     return all(np.isfinite(x) for x in vec)
 
 
+def _start_vals(c):
+    """the store the period starts from: with an in-span offset the endogenous values of the source period have been copied in"""
+    o, n, p = c['opts'], c['n'], _pos(c)
+    q = p + o['offset']
+    if o['offset'] == 0 or q < 0 or q >= n:
+        return c['vals']
+    vals = [list(row) for row in c['vals']]
+    for i in c['endo']:
+        vals[i][p] = c['vals'][i][q]
+    return vals
+
+
 def _local_finite(seq, max_iter):
     """finiteness of the loop's LOCAL vector under errors='replace' (mirror of the code, used only by guard())"""
     loc = [_fin(seq[0])]
@@ -351,7 +387,7 @@ def guard(case, obs):
     if c['opts']['errors'] != 'replace':
         return False
     p = _pos(c)
-    seq = [[lib.unhex(c['vals'][i][p]) for i in c['check']]] + [[lib.unhex(x) for x in v] for v in obs['passvecs']]
+    seq = [[lib.unhex(_start_vals(c)[i][p]) for i in c['check']]] + [[lib.unhex(x) for x in v] for v in obs['passvecs']]
     loc = _local_finite(seq, c['opts']['max_iter'])
     m = len(seq) - 1
     return any(loc[k] and not _fin(seq[k]) for k in range(1, m))
@@ -436,25 +472,32 @@ def oracle(case, obs):
     # the warnings filter: only errors='raise' together with catch_first_error turns a warning into an exception; under every
     # other policy ('skip' gives S and NO exception, 'ignore' / 'replace' keep iterating, 'raise' without catch_first_error
     # judges after the pass) a warning must never surface
-    if errors == 'raise' and o['catch_first_error'] and obs.get('warn_stored'):
-        bad('catch-first-stored', 'errors="raise" with catch_first_error: a statement that issued a warning went on and stored its result '
-            '(variable V%d at t=%d); the warning must stop the pass before the store' % tuple(obs['warn_stored'][0]))
+    # (the statement speaks of a warning-raising NUMERICAL operation: only RuntimeWarning-category warnings count here; what happens to
+    # warnings of other categories is compared by K only)
+    numerical = [w for w in obs.get('warn_stored', []) if len(w) < 3 or w[2] == 'RuntimeWarning']
+    if errors == 'raise' and o['catch_first_error'] and numerical:
+        bad('catch-first-stored', 'errors="raise" with catch_first_error: a statement that issued a numerical warning went on and stored its '
+            'result (variable V%d at t=%d); the warning must stop the pass before the store' % tuple(numerical[0][:2]))
     if not (errors == 'raise' and o['catch_first_error']):
         for r in obs['raised']:
             if r[3] in ('RuntimeWarning', 'UserWarning'):
                 bad('warning-filter', 'a warning surfaced as an exception in %s %d although errors=%r, catch_first_error=%r (only '
                     'errors="raise" with catch_first_error stops at the warning); got %s' % (r[0], r[2], errors, o['catch_first_error'], out))
                 break
-    if o['min_iter'] > o['max_iter'] or o['offset'] != 0 or p < c.get('lags', 0) or p >= n - c.get('leads', 0):
+    if o['min_iter'] > o['max_iter'] or p < c.get('lags', 0) or p >= n - c.get('leads', 0):
         return fails                                     # C02's clauses
-    c0 = [lib.unhex(c['vals'][i][p]) for i in c['check']]
+    if o['offset'] != 0 and not 0 <= p + o['offset'] < n:
+        return fails                                     # C02's clause (IndexError, no change)
+    # with an in-span offset the period starts from the endogenous values of the source period: a non-finite value there is pre-existing
+    start_vals = _start_vals(c)
+    c0 = [lib.unhex(start_vals[i][p]) for i in c['check']]
     seq = [c0] + [[lib.unhex(x) for x in v] for v in obs['passvecs']]
     m = len(seq) - 1
     raised = {(r[0], r[2]): r[3] for r in obs['raised']}
     unchanged_rec = (st == c['status'][p] and it == c['iters'][p])
     # ---- pre-existing non-finite values under 'raise': rejected before any pass (or hook)
     if errors == 'raise' and not _fin(c0):
-        if out != ['raise', 'SolutionError', None] or obs['log'] or obs['vals'] != c['vals'] or not unchanged_rec:
+        if out != ['raise', 'SolutionError', None] or obs['log'] or obs['vals'] not in (start_vals, c['vals']) or not unchanged_rec:
             bad('preexisting-nonfinite', 'pre-existing non-finite check values under errors="raise" must be rejected with SolutionError before '
                 'any hook or pass and with no change; got %s, events %s' % (out, obs['log']))
         return fails
@@ -489,6 +532,14 @@ def oracle(case, obs):
         if _fin(seq[k - 1]) and not _fin(seq[k]):
             # the first clause of the statement: non-finite after a finite previous pass / starting state
             if errors == 'raise':
+                if case.get('kind') == 'parsed' and o['catch_first_error'] and k <= len(obs.get('allfin', [])) and obs['allfin'][k - 1]:
+                    # the whole store was finite before this pass, so the non-finite value came out of an arithmetic operation on finite
+                    # operands — which NumPy reports with a RuntimeWarning; with catch_first_error that warning must have stopped the pass
+                    # (SolutionError chained to it, statement not stored).  Reaching the end-of-pass test means the warning never fired
+                    # (e.g. silenced by np.errstate), i.e. catch_first_error is dead for real models.
+                    bad('warning-path-required', 'errors="raise" with catch_first_error: pass %d turned finite values into %s and the pass '
+                        'completed — the numerical warning was not turned into an exception; got %s' % (k, [lib.fhex(x) for x in seq[k]], out))
+                    return fails
                 if out != ['raise', 'SolutionError', None] or (st, it) != ('E', k) or m != k:
                     bad('nonfinite-raise', 'pass %d left a non-finite check value after finite ones: errors="raise" must give SolutionError, status E, '
                         'iterations=%d and stop; got %s, %r, %d after %d passes' % (k, k, out, st, it, m))
@@ -577,7 +628,7 @@ def nontrivial(case, obs):
         return len(set(obs['status'])) >= 2 or any(o[0] == 'raise' for o in obs['outs'])
     c = view(case, obs)
     p = _pos(c)
-    c0 = [lib.unhex(c['vals'][i][p]) for i in c['check']]
+    c0 = [lib.unhex(_start_vals(c)[i][p]) for i in c['check']]
     seq = [c0] + [[lib.unhex(x) for x in v] for v in obs['passvecs']]
     return (not all(_fin(v) for v in seq)) or bool(obs['raised']) or bool(obs.get('blocked')) or len(seq) >= 3
 
